@@ -20,6 +20,27 @@ CHECKS = {
              "decides, over the whole box |x|<=1e3, agreement with the defining formula, agreement of the alternative implementations and "
              "inverse-after-forward = identity (tolerance 1e-8). Bounded (configurations, box), not a proof.",
         design_ref="DESIGN.md 3/C02"),
+    "C03": dict(
+        technique="symbolic execution (symbolic reals + symbolic integer indices) of the real var/object conversions and index maps + z3 (QF_LRA/LIA) verdict per path",
+        category="other",
+        text="Round trips var<->object<->stacked vector for all four types, both flags, outcome counts 2..3 (thorough ..5), 1 qubit/qutrit (thorough 2 qubits) are decided "
+             "for ALL parameter values in the box; index maps are decided for ALL indices as symbolic integers (inverse, range, 'points at the entry holding "
+             "the variable' via ITE-select, calc_gradient one-hot); SetQOperations total/local index maps and set_qoperations_from_var_total on mixed sets. Bounded by the configuration list.",
+        design_ref="DESIGN.md 3/C03"),
+    "C16": dict(
+        technique="symbolic execution of the real index / distribution code (symbolic probabilities, symbolic integer indices) + z3 (LRA/NRA with division lemmas); CrossHair on index_util with symbolic shapes",
+        category="other",
+        text="Index maps: all serial/multi indices symbolic for every shape with <=3 variables of 1..4 values (thorough 4 of 1..5) and, with CrossHair, symbolic shape entries; "
+             "MultinomialDistribution constructor / marginalize / conditionalize / __getitem__ / validate_prob_dist on symbolic probability tensors (incl. sub-threshold entries) with "
+             "joint = marginal x conditional decided as polynomial identities. Bounded by the shapes listed in the evidence.",
+        design_ref="DESIGN.md 3/C16"),
+    "C20": dict(
+        technique="path exploration of the real validation code with symbolic integer indices (unbounded) and forked kind selectors + z3 (QF_LIA) verdict 'accepted <=> 15-line spec' per path",
+        category="other",
+        text="Experiment constructor, the five setters, malformed items, the four tomography classes' custom schedules (length <=4 quick, <=5 thorough) and 'all' expansion: for every "
+             "kind sequence and list-size configuration the solver decides accepted <=> well-formed for ALL integer index values, and that rejection raises only the two schedule errors; "
+             "accepted schedules are executed on a symbolic state. Bounded by schedule length and list sizes 0..2.",
+        design_ref="DESIGN.md 3/C20"),
 }
 
 NOT_APPLICABLE = {
